@@ -584,6 +584,21 @@ let spec_check (know : int list) (s : sx) =
             Printf.printf "KMBAD case=%s cmd=%s\n" (fst !cur) (snd !cur)
         end
       end;
+      (* depth 2 without key removes at either level (per-actor delivery, duplicates, MERGES): the complete state is
+         [map2_spec_nk] of the knowledge (C01_map2_nk_refine, C03_map2_nk_merge_spec, C08_map2_nk_any_discipline,
+         C20_map2_nk_state_eq, C05_map2_nk_ok; proofs/MapMapOrswotNK.v); theorem-backed *)
+      if !ty = "mapmo" && !all_per_actor
+         && not (List.exists (fun (_, o, _) -> Known.is_rm o || (Known.is_up o && Known.is_rm (field "op" o))) !hist) then begin
+        let i = map_inst or_inst in
+        let okv = map2_nk_ok (history_of (mop_sx i)) k (cmap_sx i s) in
+        stat ("map2nk_" ^ (if okv then "ok" else "bad") ^ (if !merges_seen then "_merge" else ""));
+        let saved = !classes in
+        classes := [];
+        expect_all (["C05"; "C20"] @ (if !merges_seen then ["C03"] else if !all_causal then ["C01"] else ["C08"]))
+          (fun () -> "Map<K1,Map<K2,Orswot>> without key removes: the complete state differs from the specification of the replica's knowledge") okv;
+        classes := saved;
+        emit_spec_case (fun () -> "Bool.eqb (map2_nk_ok " ^ coq_hist "(mop (mop oop))" (coq_mop (coq_mop coq_oop)) (mop_sx i) ^ " " ^ coq_know know ^ " (" ^ coq_cmap (coq_cmap coq_orswot) (cmap_sx i s) ^ " : cmap (cmap orswot))) " ^ string_of_bool okv)
+      end;
       (* value level at depth 2, Map<K1, Map<K2, Orswot>>, causal op-based delivery: theorems
          C05_map2_values_refine / C05_map2_valspec_ok / C01_map2_converge (proofs/MapMapOrswot.v);
          theorem-backed, never attributed to a known finding *)
